@@ -123,6 +123,8 @@ type Unit struct {
 	pkg   *packages.Package
 	info  *types.Info
 	block *Block
+	lockRel0    Val  // entry value of the lockReleased ghost
+	lockRelFact bool // its all-false fact has been stated (only units that lock need it)
 	name  string // display name: pkgpath.Key
 	decl  *ast.FuncDecl
 	lit   *ast.FuncLit
